@@ -19,11 +19,28 @@ class LikelihoodList(Likelihood):
         super().__init__()
         self.likelihoods = ModuleList(likelihoods)
 
-    def expected_log_prob(self, *args, **kwargs):
+    def _apply_to_members(self, method_name, *args, **kwargs):
+        # Each member likelihood gets its own positional arguments (and its own noise, if a noise kwarg is passed)
+        if "noise" in kwargs:
+            noise = kwargs.pop("noise")
+            # if noise kwarg is passed, assume it's an iterable of noise tensors
+            return [
+                getattr(likelihood, method_name)(*args_, **{**kwargs, "noise": noise_})
+                for likelihood, args_, noise_ in length_safe_zip(self.likelihoods, _get_tuple_args_(*args), noise)
+            ]
         return [
-            likelihood.expected_log_prob(*args_, **kwargs)
+            getattr(likelihood, method_name)(*args_, **kwargs)
             for likelihood, args_ in length_safe_zip(self.likelihoods, _get_tuple_args_(*args))
         ]
+
+    def expected_log_prob(self, *args, **kwargs):
+        return self._apply_to_members("expected_log_prob", *args, **kwargs)
+
+    def log_marginal(self, *args, **kwargs):
+        return self._apply_to_members("log_marginal", *args, **kwargs)
+
+    def marginal(self, *args, **kwargs):
+        return self._apply_to_members("marginal", *args, **kwargs)
 
     def forward(self, *args, **kwargs):
         if "noise" in kwargs:
